@@ -19,14 +19,19 @@ CHECKS = {
 
 _BEAR_NOTE = ('Trusted: Lean kernel + axioms propext/Classical.choice/Quot.sound; the harness (hint/object translation written from '
               'typing introspection, AST canonicalisation, generators); CPython evaluation of generated code is modelled by `eval` and '
-              'validated behaviourally, not verified; objects are well-behaved containers; hint grammar = the modelled one (user generics, '
-              'protocols beyond isinstance, third-party hints out of scope).')
+              'validated behaviourally, not verified; objects are well-behaved containers; hint grammar = the modelled one (classes, '
+              'unions, literals, tuples, 1-argument containers, mappings, type[...], Annotated validators, TypeVars, NewTypes, PEP 695 '
+              'aliases incl. recursive ones as unrolled, user generics and protocols; generics deriving from user generics and '
+              'third-party hints out of scope).')
 _BEAR_TECH = ('Lean 4 proof by structural induction (sat -> chk -> eval(gen), all hints/objects/draws) + code-level translation validation '
               'of make_check_expr against the Lean generator + behaviour differential under forced sampler draws')
 CHECKS.update({
     'C01': (_BEAR_TECH, 'Theorems (Props/C01.lean): published meaning implies the sampled check for every draw; compiler correctness '
             'eval(gen h) = chk h for every hint of any nesting and every object, incl. the walrus-variable discipline and validators; '
-            'hence no false alarm and no exception on conforming objects. Tie on every run: real generated source parsed with ast and '
+            'hence no false alarm and no exception on conforming objects; bounding the unrolling of a recursive alias never causes a '
+            'false alarm (C01_alias_unroll_sound); the breadth-first placeholder mechanism of make_check_expr computes the recursive '
+            'composition for every snippet tree (C01_placeholder_mechanism), replayed on the real snippets of every generated hint. '
+            'Tie on every run: real generated source parsed with ast and '
             'compared node-for-node with gen (exhaustive shapes + seeded hints, 3 configurations), five entry points under 9 forced draws.',
             _BEAR_NOTE, 'DESIGN §4 C01'),
     'C02': (_BEAR_TECH, 'Theorems (Props/C02.lean): rejection for every draw when the top-level class, tuple length/any position, Literal, '
@@ -35,7 +40,9 @@ CHECKS.update({
             'mutated-object stream; a real accept where the model rejects for that draw is the violation.', _BEAR_NOTE, 'DESIGN §4 C02'),
     'C09': (_BEAR_TECH + ' + measured item reads on instrumented containers across a size sweep',
             'Theorems (Props/C09.lean): items read by the generated code <= levels(h), a constant of the hint alone (one item per container '
-            'level, key+value per mapping level), for objects of any size, accepted or rejected; non-collections read nothing. Tie: counting '
+            'level, key+value per mapping level), for objects of any size, accepted or rejected; non-collections read nothing; the '
+            'violation finder (instrumented model causeRC, verdict proved equal to hasCause) reads <= causeBound(h) items '
+            '(C09_explainer_cost). Tie: counting '
             'container subclasses measure real reads (deciding path must not exceed the model; reads incl. violation message must not grow '
             'over repeat factors 1/40/1500).', _BEAR_NOTE + ' repr() time and ABC hook costs are not item reads.', 'DESIGN §4 C09'),
     'C10': (_BEAR_TECH + ' + spy objects (one-shot iterables, generators, iterators, defaultdicts)',
@@ -180,7 +187,7 @@ CHECKS.update({
     'C07': ('Lean 4 proof over an executable model of the resolution logic (layered forward scope, proxy state machine, event histories; '
             'structural induction over hint expressions, induction over histories, printer/parser round trip) + generated-program '
             'differential in fresh interpreters (4 annotation variants x placements x definition orders, forced sampler draws)',
-            'Theorems (Props/C07.lean, 20): string / postponed / names-only-quoted forms are stored with exactly the evaluated form\'s hint '
+            'Theorems (Props/C07.lean, 23): string / postponed / names-only-quoted forms are stored with exactly the evaluated form\'s hint '
             'when the forward scope binds the names as Python does and a proxy-free hint is checked unchanged forever; layer order and '
             'agreement with Python\'s scoping; proxy state machine: unresolved raises and leaves the cache untouched, resolves once defined, '
             'remembered after success only; define-after = define-before for every module-level history without rebinding. Counterexample '
